@@ -544,6 +544,12 @@ def evaluate_cases(ctx, cases, parsed, name="cases", flame_fixed=False):
                                    for key, hit, tm in blocks)) for i, (func, blocks) in bcs)
     evals.append(("mismatch_bt", "bad_indices agree_bt bcases 0"))
     evals.append(("violation_bt", "bad_indices okc_bt bcases 0"))
+    acs = [(i, p["flameA"]) for i, p in enumerate(parsed) if p.get("flameA") is not None]
+    defs += "Definition acases : list acase := [\n%s\n].\n" % ";\n".join(
+        "mk_acase (nth %d%%nat cases (mk_case [] [] [] [] 0%%N [] [] [] [] [] [] true [] [])) %s %s" % (
+            i, cn(total), clines(lines)) for i, (total, lines) in acs)
+    evals.append(("mismatch_flameA", "bad_indices agree_flameA acases 0"))
+    evals.append(("violation_flameA", "bad_indices okc_flameA acases 0"))
     tcs = [(i, tx) for i, p in enumerate(parsed) for tx in p.get("texts", [])]
     defs += "Definition tcases : list tcase := [\n%s\n].\n" % ";\n".join(
         "mk_tcase (nth %d%%nat cases (mk_case [] [] [] [] 0%%N [] [] [] [] [] [] true [] [])) %s %s" % (
@@ -577,6 +583,8 @@ def evaluate_cases(ctx, cases, parsed, name="cases", flame_fixed=False):
         return None
     res = {k: coq.parse_nat_list(v) for k, v in res.items()}
     res["muts"] = muts
+    res["flameA_owner"] = [i for i, _ in acs]
+    res["flameA_list"] = [a for _, a in acs]
     res["bt_owner"] = [i for i, _ in bcs]
     res["bt_list"] = [b for _, b in bcs]
     res["text_owner"] = [i for i, _ in tcs]
@@ -720,6 +728,26 @@ def run_graphf(objdir, c, d, rng, func=None):
             raise ParseError("graph FUNC printed neither a graph nor a backtrace: %r" % out[:200])
         return func, [], out
     return func, parse_graph(out), out
+
+
+def run_flame_auto(objdir, c, d, rng):
+    """give the directory a record date and an elapsed time (as `record` writes them) and let dump --flame-graph pick
+    the sample time itself -> (total_ns as the C code computes it, lines)"""
+    lo, hi = min(r[3] for r in c["recs"]), max(r[3] for r in c["recs"])
+    el = rng.choice([hi - lo + 1, 999999999, 1000000000, 1000000001, 10 ** 10 - 1, 10 ** 10 + 1, 10 ** 12, 12345,
+                     10 ** 15 + 1, 10 ** 16, rng.randrange(1, 10 ** rng.randrange(3, 17))])
+    text = "%d.%09d sec" % (el // 10 ** 9, el % 10 ** 9)
+    total = int(float(text.split()[0]) * 1e9)                  # strtod(...) * 1e9 converted to uint64_t
+    path = os.path.join(d, "info")
+    b = bytearray(open(path, "rb").read())
+    mask = struct.unpack_from("<Q", b, 24)[0] | datadir.INFO_RECORD_DATE
+    struct.pack_into("<Q", b, 24, mask)
+    b += b"record_date:Thu Oct  1 00:00:00 2026\nelapsed_time:" + text.encode() + b"\n"
+    open(path, "wb").write(bytes(b))
+    rc, out, err = uft(objdir, ["dump", "--flame-graph", "--no-pager", "-d", d])
+    if rc != 0:
+        raise ParseError("uftrace dump --flame-graph (automatic sample time) exited with %d: %r" % (rc, err[-200:]))
+    return total, parse_flame(out)
 
 
 def run_noev(objdir, c, d, rng, cmdline=b"prog arg", with_cmdline=True):
@@ -1079,6 +1107,24 @@ def verdict(ctx, cases, parsed, res, flame_fixed=False):
                        "case": case_json(cases[i], parsed[i])}, False)
         anyviol = True
     ctx.extra["graph_func_cases"] = len(res.get("graphf_list", []))
+    # dump --flame-graph with the sample time it picks itself (data with a record date, i.e. every real recording)
+    for j in res.get("violation_flameA", [])[:2]:
+        anyviol = True
+        i = res["flameA_owner"][j]
+        ctx.violation("C15 violated: dump --flame-graph with its automatic sample time is not the projection of the trace",
+                      {"kind": "dir", "output": "flame-auto", "elapsed_total_ns": res["flameA_list"][j][0],
+                       "lines": [l.decode("latin-1") for l in res["flameA_list"][j][1]],
+                       "case": case_json(cases[i], parsed[i])}, True)
+    if not anyviol and res.get("mismatch_flameA"):
+        j = res["mismatch_flameA"][0]
+        i = res["flameA_owner"][j]
+        ctx.violation("model and implementation disagree on dump --flame-graph with the automatic sample time (%d cases); "
+                      "the checker accepts every explored output" % len(res["mismatch_flameA"]),
+                      {"kind": "dir", "output": "flame-auto", "elapsed_total_ns": res["flameA_list"][j][0],
+                       "lines": [l.decode("latin-1") for l in res["flameA_list"][j][1]],
+                       "case": case_json(cases[i], parsed[i])}, False)
+        anyviol = True
+    ctx.extra["flame_auto_sample_cases"] = len(res.get("flameA_list", []))
     # the BACKTRACE section of graph FUNC
     for j in res.get("violation_bt", [])[:2]:
         anyviol = True
@@ -1323,6 +1369,12 @@ def run(ctx):
             except ParseError as e:
                 ctx.violation("dump --chrome with a filter that leaves no record failed: %s" % e,
                               {"kind": "dir", "case": case_json(c)}, True)
+        if i % 3 == 1:
+            try:
+                p["flameA"] = run_flame_auto(objdir, c, d, ctx.rng)      # changes the info file: last command on d
+                extra_tags.append("flame:automatic-sample-time")
+            except ParseError as e:
+                ctx.violation("dump --flame-graph with a record date failed: %s" % e, {"kind": "dir", "case": case_json(c)}, True)
         cases.append(c)
         parsed.append(p)
         ctx.case(key=("dir", tuple(c["syms"]), tuple(c["recs"])), nontrivial=len(c["recs"]) >= 2,
